@@ -4,6 +4,7 @@ import (
 	"go/ast"
 	"go/token"
 	"go/types"
+	"regexp"
 	"sort"
 	"strings"
 
@@ -540,12 +541,12 @@ func c12(c *an.Ctx) {
 			n++
 			o.Site(i)
 			gs := strings.Join(an.GuardStrings(i.Block()), " ; ")
-			for _, want := range []string{"query.Options == nil", "HasTx(ctx)", "HasBatching(ctx)"} {
+			for _, want := range []string{".Options == nil)", ".HasTx(", "batch.HasBatching("} {
 				if !strings.Contains(gs, want) {
 					o.FailAt(i, "the batched path is taken without the %s condition (guards: %s)", want, gs)
 				}
 			}
-			if strings.Contains(gs, "db.HasTx(ctx)") && !strings.Contains(gs, "!db.HasTx(ctx)") {
+			if m := regexp.MustCompile(`(!?)[A-Za-z_][A-Za-z0-9_]*\.HasTx\(`).FindStringSubmatch(gs); m != nil && m[1] != "!" {
 				o.FailAt(i, "the batched path is taken inside a transaction (it would read outside the transaction's snapshot)")
 			}
 		})
